@@ -84,7 +84,7 @@ func GenConfig(t *rapid.T, label string) Config {
 }
 
 // StatusTokens is the fixed part of the status-token alphabet. Apart from
-// "101" and the leading-zero forms every one of them must be refused; the
+// "101" every one of them must be refused (the leading-zero forms of 101 are not the literal 101); the
 // tokens "0:1", "9;" and the 20-digit one were accepted as 101 by the
 // originally pinned tree (finding C10/status-token-nondigit-or-overflow).
 var StatusTokens = []string{
@@ -388,7 +388,9 @@ func Gen(t *rapid.T, label string, cfg Config, o Opts) *Response {
 		case 22: // stray line ends / blanks before the status line
 			r.Prefix = rapid.SampledFrom(Prefixes).Draw(t, L("prefix"))
 		case 0, 1: // status token
-			switch rapid.IntRange(-1, 5).Draw(t, L("stkind")) {
+			switch rapid.IntRange(-2, 5).Draw(t, L("stkind")) {
+			case -2: // value 101, but not the literal: leading zeros
+				r.Status = strings.Repeat("0", rapid.IntRange(1, 24).Draw(t, L("stzeros"))) + "101"
 			case -1:
 				if rapid.Bool().Draw(t, L("stwraprand")) {
 					// random long digit string ending in 101
